@@ -97,3 +97,8 @@ def tune_slow_unit(kind):
 
 for _k in ("HMC", "NUTS"):
     tune_slow_unit(_k)
+
+
+from contracts.c07 import engine_init_unit  # noqa: E402
+
+engine_init_unit("C12.engine_init", "C12")
